@@ -57,6 +57,7 @@ def cmd_check(args):
 	tier = args.tier or os.environ.get('VERIF_TIER') or 'quick'
 	seed = int(os.environ.get('VERIF_SEED', '20240930'))
 	common.setup_impl_path()
+	common.prepare_work()
 	module = importlib.import_module(f'harness.checks.{args.id.lower()}')
 	check = common.Check(args.id, tier, seed)
 	check.trusted += common.COMMON_TRUSTED
